@@ -179,7 +179,16 @@ fn equivalent(a: &Outcome, b: &Outcome) -> bool {
 }
 
 pub fn check_vector(unit: &Value, family: &str, p: &bpaf::OptionParser<Val>, t: &Table, argv: &[Tok], ctx: &mut Ctx) {
-    let seg = match segment(t, argv) {
+    // a single-dash item of several letters one of which is not declared is a plain word to the
+    // parser (`-éx`): for cutting the line it stands for a word, the permutations move the item
+    let seg_argv: Vec<Tok> = argv
+        .iter()
+        .map(|tk| match tk.utf8() {
+            Some(s) if s.starts_with('-') && !s.starts_with("--") && s.chars().count() > 2 && !s.contains('=') && s.chars().skip(1).any(|c| !t.flag_shorts.contains(&c) && !t.arg_shorts.contains(&c)) && !s.chars().skip(1).take(1).any(|c| t.arg_shorts.contains(&c)) => Tok::s("w"),
+            _ => tk.clone(),
+        })
+        .collect();
+    let seg = match segment(t, &seg_argv) {
         Some(s) => s,
         None => {
             ctx.s.skipped += 1;
@@ -292,6 +301,12 @@ impl Check for C03 {
             }
             out.push(serde_json::to_value(Unit { opts: l.to_opts(), len: tier.pick(3, 4), family: "conventional".into(), alpha }).unwrap());
         }
+        // multi-byte short flags; blocks mixing them with undeclared letters are words
+        for tail in [fam::pos(&[PosKind::Many]), fam::pos(&[PosKind::Opt])] {
+            let mk = |c: char, kind: Kind| Named { names: Names::short(c), kind, hidden: false, ty: Ty::Os, adjacent: false, guarded: false };
+            let l = fam::leaf(vec![mk('é', Kind::Switch), mk('a', Kind::Switch), mk('ж', Kind::Count)], tail);
+            out.push(serde_json::to_value(Unit { opts: l.to_opts(), len: tier.pick(4, 5), family: "non-ascii-shorts".into(), alpha: toks(&["-é", "-a", "-ж", "-éx", "-жжx", "w", "-z"]) }).unwrap());
+        }
         // help and version requests among the named items of a level that configures a version
         for mut l in fam::conventional(1, &[Tail::None, fam::pos(&[PosKind::Opt])], seed + 1) {
             l.version = Some("1.2.3".into());
@@ -312,7 +327,7 @@ impl Check for C03 {
         };
         let t = c03_table(&u);
         let mut alpha = if u.alpha.is_empty() { shape_alphabet(&u.opts) } else { u.alpha.clone() };
-        if u.alpha.is_empty() {
+        if u.alpha.is_empty() && u.len <= 3 {
             // an undeclared dash-digit item (looks like a negative number)
             alpha.push(Tok::s("-5"));
         }
